@@ -13,10 +13,19 @@ for p in props:
     f = os.path.join(V, 'harness', p.lower() + '.py')
     meta = None
     if os.path.exists(f):
-        src = open(f).read()
-        m = re.search(r'^MANIFEST\s*=\s*(\{.*?^\})', src, flags=re.S | re.M)
-        if m:
-            meta = eval(m.group(1))
+        # the MANIFEST literal of the harness module, read with ast (never executed); if the module is
+        # momentarily unparsable (someone is editing it) the previous manifest entry is kept
+        import ast
+        try:
+            tree = ast.parse(open(f).read())
+            for n in tree.body:
+                if isinstance(n, ast.Assign) and any(isinstance(t, ast.Name) and t.id == 'MANIFEST' for t in n.targets):
+                    meta = ast.literal_eval(n.value)
+        except SyntaxError:
+            prev = [c for c in man.get('checks', []) if c['property_id'] == p]
+            if prev:
+                checks.append(prev[0])
+                continue
     if meta and not meta.get('disabled'):
         checks.append({
             'property_id': p,
